@@ -147,6 +147,13 @@ def cases(tier):
         if k % 64 in (0, 1, 63) or tier == "thorough":
             out.append(mk([a, mid, b], "sock:5"))
             out.append(mk([a, mid, b], "buf:7:1"))
+    # every one-byte-payload filler frame directly before a frame (their CRC bytes take all values)
+    for v in range(256):
+        filler = items.frame_item(f"F1:{v:02x}", bytes([v]))
+        out.append(mk([a, filler, b], "bytesio"))
+        out.append(mk([filler, items.frames()["F2"], filler, items.frames()["F19"]], "bytesio", q=0))
+    z = items.frame_item("F0", b"")
+    out.append(mk([z, a, z, z, b, z], "bytesio"))
     # UBX frames of every length class of the 16-bit little-endian length field
     for n in (0, 1, 2, 255, 256, 257, 4095, 4096, 32767, 32768, 32769, 40000, 65535):
         body = bytes((i * 7 + 3) & 0x7F | 0x01 for i in range(n))
